@@ -74,8 +74,26 @@ def generate(tier, seed):
     nums = ["0", "1", "-1", "2", "9223372036854775807", "-9223372036854775808", "0.0", "1.5", "(expt 10.0 400)"]
     for nm in ["+", "-", "*", "/", "max", "min"]:
         for t in itertools.product(nums, repeat=3): reqs.append("(%s %s)" % (nm, " ".join(t)))
+    allp = []
     for t in TEMPLATES:
-        for p in prefixes(t): reqs.append(p)
+        for p in prefixes(t): reqs.append(p); allp.append(p)
+    # the same malformed forms as the (tail) body of a function / macro / binding form: definition walks the body
+    # (tail-call marking, variable capture, macro expansion) before anything is evaluated
+    wrappers = ["(progn (defun g (a b c) %s) (g 1 2 3))", "(funcall (lambda (a b c) %s) 1 2 3)", "(let ((a 1) (b 2) (c 3)) (funcall (lambda () %s)))",
+                "(progn (defmacro gm (a b c) %s) (gm 1 2 3))", "(progn (defun g (a b c) (progn 0 %s)) (g nil nil nil))",
+                "(progn (defun g (a b c) (let ((x 1)) %s)) (g 1 2 3))", "(progn (defun g (a b c) (cond (a %s) (t %s))) (g nil 2 3))",
+                "(progn (defun g (a b c) (if a 1 %s)) (g nil 2 3))", "(macroexpand '%s)", "(eval (list 'defun 'g '(a b c) '%s))"]
+    for p in sorted(allp):
+        ws = wrappers if tier != "quick" else rng.sample(wrappers, 3)
+        for w in ws:
+            reqs.append(w.replace("%s", p))
+    for tailform in ["(if x 1 . 2)", "(progn . x)", "(let ((y 1)) . y)", "(let* ((y 1)) . y)", "(cond (x . 1))", "(cond x)", "(cond . x)", "(if . x)",
+                     "(progn 1 . 2)", "(let . x)", "(let* x . 1)", "(if x . 1)", "(cond (x 1) . 2)", "(g . x)", "(g x . 1)", "(and x . 1)", "(or . x)",
+                     "(when x . 1)", "(unless . x)", "(while nil . 1)", "(if-let ((y 1)) . x)", "(progn (g . x))", "(let ((y . 1)) (g y))"]:
+        for shell in ["(defun g (x) %s)", "(defun g (x) 1 %s)", "(progn (defun g (x) %s) (g 1))", "(eval (list 'defun 'g '(x) '%s))",
+                      "(defun g (x) (if x %s 2))", "(defun g (x) (progn (let ((z 1)) %s)))", "(defmacro g (x) %s)", "(funcall (lambda (x) %s) 1)"]:
+            if ("(g 1)" in shell or "defmacro" in shell or "funcall" in shell) and "(g" in tailform: continue   # would call / expand itself for ever, legitimately
+            reqs.append(shell % tailform)
     for a in ["nil", "(progn nil)", "'()"]:
         reqs += ["(while %s)" % a, "(while %s 1 2)" % a, "(while %s . 5)" % a, "(while-let ((x %s)) x)" % a, "(while-let (x %s) 1)" % a]
     reqs += ["(while)", "(while-let ((x)) 1)", "(while-let ((x nil)) x . 5)", "(while-let ((x nil . 5)))", "(while-let ((x . 5)))"]   # (while-let nil) loops for ever, legitimately
